@@ -65,6 +65,41 @@ def correspondence(ctx):
         rng = ctx.rng("c17", name)
         bench = B.Bench(name, rng, size=16)
         B.probe_unrankable(ctx, "C17", bench)
+        # every version of the pool, in every spelling, as the bound of a one-constraint range: printing and parsing the
+        # range back keeps the range and keeps the version itself on the same side
+        for cl in bench.pool.classes:
+            for t, v in cl[:2]:
+                if (not t.isascii()) or any(ch in t for ch in "|\\'\" \t\n") or t[0] in "<>=!*vV":
+                    continue
+                for cmp_ in (">=", "<"):
+                    ctx.count("print-parse-one:" + name, key=(cmp_, t), nontrivial=True)
+                    try:
+                        r = rcls(constraints=[VersionConstraint(comparator=cmp_, version=v)])
+                        back = VersionRange.from_string(str(r))
+                        why = None
+                        if not (back == r):
+                            why = "parsing the printed range %r gives another range (%r)" % (str(r), str(back))
+                        elif (v in back) != (v in r):
+                            why = "membership of the bound itself changes: %s before, %s after" % (v in r, v in back)
+                    except Exception as e:  # noqa: BLE001
+                        why = "raises %s: %s" % (type(e).__name__, e)
+                    if why:
+                        weak = False
+                        try:
+                            w = S.vclass(name)(str(v))
+                            weak = not (w == v) or str(w) != str(v)
+                        except Exception:  # noqa: BLE001
+                            weak = True
+                        region = None
+                        if weak and name == "rpm":
+                            from harness.props.c11 import k05_text
+                            region = "rpm-str-roundtrip" if k05_text(t) else None
+                        ctx.disagree("print-parse-one:" + name, "%s%s" % (cmp_, t), why, "stable meaning", True,
+                                     {"scheme": name, "range": "%s%s" % (cmp_, t), "clause": why}, region=region, spec="stable meaning")
+                        break
+                else:
+                    continue
+                break
         stream = "walk:" + name
         if not bench.ok(11) or not bench.pool.hashable:
             ctx.stream(stream)["skipped"] = "pool too small or unhashable"
